@@ -6,10 +6,16 @@ Objects
 * the `Ring` (src/lib.rs:184-187: `cq: Completions`, `sq: Submissions`),
 * extra `SubmissionQueue` clones (src/lib.rs:286, src/io_uring/sq.rs:12-15:
   `Arc<Shared>`),
-* regular-descriptor `AsyncFd`s (src/fd.rs:40-59: `fd`, `sq`),
+* `AsyncFd`s (src/fd.rs:40-59: `fd`, `sq`) of both kinds: regular descriptors
+  and DIRECT descriptors (`Kind::Direct`: `fd` is an index into the ring's
+  registered-file table, created by `with_direct_descriptors`,
+  src/io_uring/config.rs:278-291),
 * operations: futures made by `fd_operation!` borrow their `AsyncFd`
   (src/op.rs:198-218), futures made by `operation!` own a `SubmissionQueue`
-  (src/op.rs:149-170); the state box (`Box<Data>`, src/io_uring/op.rs:128-141)
+  (src/op.rs:149-170); besides single-shot reads / writes the population has
+  the multishot pool read (`fd_iter_operation!`, any number of `F_MORE`
+  completions) and the zero-copy send (result with `F_MORE`, then the
+  `F_NOTIF` notification); the state box (`Box<Data>`, src/io_uring/op.rs:128-141)
   is reclaimed by the future's drop (src/op.rs:314-319 → `State::drop`,
   src/io_uring/op.rs:182-205) or, if it was running, by the processing of its
   final completion (`Shared::update`, op.rs:268-312; cq.rs:239-252),
@@ -18,7 +24,8 @@ Objects
   `ReadBuf`s / operation resources that reference it (read_buf.rs:153-158).
 
 Ledger: the three mappings, the ring descriptor, the regular descriptors, the
-pool's registration and two allocations, the operation state boxes.
+slots of the registered-file table, the pool's registration and two
+allocations, the operation state boxes.
 
 Steps are atomic (single-threaded executor). Every function is a state
 transformer `St → St`; the lines a step prints are appended to `St.out`
@@ -32,7 +39,11 @@ untouched by the processing of completions) + constants + scratch.
 * `St.rpoll`     — `Ring::poll` (cq.rs:58-103; `Shared::enter`, mod.rs:154-211)
 * `St.dropRing`  — `Ring` drop (lib.rs:268-272): `Completions::drop` (cq.rs:105-153),
                    then the fields: `Completions` (munmap, cq.rs:161-173), `Submissions` (Arc)
-* `St.dropFd`    — `AsyncFd` drop (src/io_uring/fd.rs:213-233)
+* `St.dropFd`    — `AsyncFd` drop (src/io_uring/fd.rs:213-233), regular descriptor
+* `St.dropDfd`   — the same drop for a direct descriptor: CLOSE with
+                   `file_index = fd + 1` (io.rs:646-657) or, queue full,
+                   `close_direct_fd` (io.rs:659-671): `IORING_REGISTER_FILES_UPDATE`
+                   of slot `fd` with -1 on the ring descriptor
 * `St.dropClone` / `St.dropPool` / `St.dropBuf` — `Arc` decrements
 * `St.sharedDrop` — `Drop for Shared` (mod.rs:271-297): submit what is still
                     queued, unmap the SQEs, unmap the SQ ring; the ring fd
@@ -45,12 +56,17 @@ namespace A10.Teardown
 
 open A10
 
-/-- Kinds of operations in the population. `read`/`write`/`pread` are
-`fd_operation!` futures (borrow the `AsyncFd`); `pread` reads into a `ReadBuf`
-of the pool (its resources hold a reference to the pool); `unlink` is an
-`operation!` future (`fs::remove_file`, owns a `SubmissionQueue`). -/
+/-- Kinds of operations in the population. `read`/`write`/`pread`/`sendzc`/
+`mread` borrow the `AsyncFd` (`fd_operation!` / `fd_iter_operation!`); `pread`
+reads into a `ReadBuf` of the pool (its resources hold a reference to the
+pool); `mread` is the MULTISHOT read with the pool (`AsyncFd::multishot_read`,
+an `AsyncIterator`: any number of completions with `IORING_CQE_F_MORE`, each
+`Ok` item is a `ReadBuf`; the stream's resources are the pool); `sendzc` is the
+zero-copy send (`send(..).zc()`: single-shot with TWO completions, the result
+with `F_MORE`, then the notification `F_NOTIF`); `unlink` is an `operation!`
+future (`fs::remove_file`, owns a `SubmissionQueue`). -/
 inductive Kind where
-  | read | write | pread | unlink
+  | read | write | pread | unlink | mread | sendzc
   deriving Repr, DecidableEq
 
 def Kind.opc : Kind → String
@@ -58,6 +74,20 @@ def Kind.opc : Kind → String
   | .write => "WRITE"
   | .pread => "READ"
   | .unlink => "UNLINKAT"
+  | .mread => "READ_MULTISHOT"
+  | .sendzc => "SEND_ZC"
+
+/-- The operation's state is a multishot one (`Results.multi`). -/
+def Kind.multi : Kind → Bool
+  | .mread => true
+  | _ => false
+
+/-- The operation's resources hold a reference to the pool and its `Ok`
+results are `ReadBuf`s of the pool. -/
+def Kind.pool : Kind → Bool
+  | .pread => true
+  | .mread => true
+  | _ => false
 
 structure TOp where
   op : Op
@@ -73,6 +103,10 @@ inductive SqEntry where
   | cancel (i : Nat)
   /-- CLOSE of descriptor `k`, user_data 3, CQE_SKIP_SUCCESS (fd.rs:215-219) -/
   | close (k : Nat)
+  /-- CLOSE of a direct descriptor: `fd` unset, `file_index = fi` (the slot + 1:
+  "zero means a file descriptor, so indices need to be encoded +1",
+  io.rs:651-654), user_data 3, CQE_SKIP_SUCCESS -/
+  | closeIdx (fi : Nat)
   deriving Repr, DecidableEq
 
 inductive Ud where
@@ -80,11 +114,17 @@ inductive Ud where
   | reserved (n : Nat)
   deriving Repr, DecidableEq
 
-/-- A completion; every completion of the single-shot kinds is final (flags 0). -/
+/-- A completion. `flags`: the raw CQE flags as far as the operation machine
+looks at them (`IORING_CQE_F_MORE` = 2: not the final one; `IORING_CQE_F_NOTIF`
+= 8: zero-copy notification). -/
 structure Cqe where
   ud : Ud
   res : Int
+  flags : Nat := 0
   deriving Repr, DecidableEq
+
+/-- A scripted completion: operation, result, flags. -/
+abbrev Post := Nat × Int × Nat
 
 inductive Region where
   | cq | sqes | sq
@@ -105,6 +145,9 @@ structure Objs where
   clones : List Bool := []
   /-- per descriptor: the `AsyncFd` object exists -/
   fdLive : List Bool := []
+  /-- per descriptor, constant: it is a DIRECT descriptor (`Kind::Direct`); its
+  number `k` is then the index of its slot in the ring's registered-file table -/
+  fdDir : List Bool := []
   /-- the user's `ReadBufPool` handle -/
   poolHandle : Bool := false
   /-- `ReadBuf`s handed to the caller -/
@@ -139,6 +182,15 @@ structure Queues where
   /-- per descriptor, ledger: close requests executed for it (CLOSE consumed by
   the kernel, or `close(2)`) -/
   fdCloses : List Nat := []
+  /-- the kernel's registered-file table (`IORING_REGISTER_FILES2`, sparse): slot
+  `j` holds a file. It lives as long as the ring descriptor. -/
+  slotReg : List Bool := []
+  /-- per slot, ledger: release requests executed for it (CLOSE with
+  `file_index = j + 1` consumed by the kernel, or `FILES_UPDATE(offset j, -1)`) -/
+  slotRel : List Nat := []
+  /-- buffers of the pool's ring the kernel may still select (never replenished
+  in the model: a lower bound of what the real ring holds) -/
+  pbufLeft : Nat := 16
   deriving Repr
 
 structure St extends Objs, Queues where
@@ -154,6 +206,7 @@ structure St extends Objs, Queues where
   deriving Repr
 
 def ENOENT : Int := 2
+def ENXIO : Int := 6
 def EBADF : Int := 9
 
 def b2n (b : Bool) : Nat := if b then 1 else 0
@@ -172,7 +225,7 @@ def handles (s : Objs) : Nat :=
 every `ReadBuf`, the resources of every `pread` operation state. -/
 def poolRefs (s : Objs) : Nat :=
   b2n s.poolHandle + s.bufs.count true
-    + s.ops.countP (fun t => t.kind == .pread && t.op.resInit)
+    + s.ops.countP (fun t => t.kind.pool && t.op.resInit)
 
 /-- a10 reads/writes the SQ ring or the SQE array, or makes a system call on
 the ring descriptor (all reached through `Shared`). -/
@@ -199,16 +252,34 @@ def St.flushOverflow (s : St) : St :=
 def St.closeFd (s : St) (k : Nat) : St :=
   { s with fdCloses := s.fdCloses.set k (s.fdCloses.getD k 0 + 1) }
 
+/-- A release request for slot `j` of the registered-file table is executed. -/
+def St.releaseSlot (s : St) (j : Nat) : St :=
+  { s with slotReg := s.slotReg.set j false,
+           slotRel := s.slotRel.set j (s.slotRel.getD j 0 + 1) }
+
+/-- The kernel executes a CLOSE whose `file_index` is `fi`: `0` would mean "a
+regular descriptor" and is never produced for a direct one; `j + 1` is slot `j`
+of the registered-file table (-EBADF: nothing registered there, -ENXIO: outside
+the table). -/
+def St.closeIdx (s : St) : Nat → St
+  | 0 => s.emit "closereq bad-index"
+  | j + 1 =>
+    if s.slotReg.getD j false then (s.releaseSlot j).emit s!"closereq slot{j} ok"
+    else if j < s.slotReg.length then
+      ((s.releaseSlot j).postCqe ⟨.reserved 3, -EBADF, 0⟩).emit s!"closereq slot{j} EBADF"
+    else ((s.releaseSlot j).postCqe ⟨.reserved 3, -ENXIO, 0⟩).emit s!"closereq slot{j} ENXIO"
+
 /-- The kernel consumes one submission (KC1); cancel and close requests are
 executed at once (KC5): a cancel whose target is not in flight is answered
 with `-ENOENT` on the reserved `user_data` 2, a successful one posts nothing;
 a failing CLOSE is answered on the reserved `user_data` 3. -/
 def St.consumeOne (s : St) : SqEntry → St
   | .op i => { s with inflight := s.inflight ++ [i] }
-  | .cancel i => if s.inflight.contains i then s else s.postCqe ⟨.reserved 2, -ENOENT⟩
+  | .cancel i => if s.inflight.contains i then s else s.postCqe ⟨.reserved 2, -ENOENT, 0⟩
   | .close k =>
     if s.fdCloses.getD k 0 == 0 then (s.closeFd k).emit s!"closereq fd{k} ok"
-    else ((s.closeFd k).postCqe ⟨.reserved 3, -EBADF⟩).emit s!"closereq fd{k} EBADF"
+    else ((s.closeFd k).postCqe ⟨.reserved 3, -EBADF, 0⟩).emit s!"closereq fd{k} EBADF"
+  | .closeIdx fi => s.closeIdx fi
 
 def St.consume (s : St) : List SqEntry → St
   | [] => s
@@ -222,19 +293,33 @@ def St.wakeBlocked (s : St) : St :=
   { s with blocked := s.blocked.drop (min (s.sqLen - s.sq.length) s.blocked.length),
            wk := s.wk ++ s.blocked.take (min (s.sqLen - s.sq.length) s.blocked.length) }
 
-/-- The kernel posts the final completion of `i`'s in-flight submission (KC2). -/
-def St.kpostQuiet (s : St) (i : Nat) (res : Int) : St :=
-  if s.inflight.contains i then
-    ({ s with inflight := s.inflight.erase i }).postCqe ⟨.op i, res⟩
+/-- The completion selects a buffer of the pool's ring (a positive result of a
+pool read). -/
+def takesBuf (s : St) (i : Nat) (res : Int) : Bool :=
+  decide (res > 0) && (match s.ops[i]? with
+    | some t => t.kind.pool
+    | none => false)
+
+/-- The kernel may post `res` for `i` now: the submission is in flight and, if
+the completion selects a pool buffer, one is left. -/
+def St.canPost (s : St) (i : Nat) (res : Int) : Bool :=
+  s.inflight.contains i && (!takesBuf s i res || decide (0 < s.pbufLeft))
+
+/-- The kernel posts a completion of `i`'s in-flight submission (KC2); the
+submission stays in flight when `IORING_CQE_F_MORE` is set. -/
+def St.kpostQuiet (s : St) (i : Nat) (res : Int) (f : Nat) : St :=
+  if s.canPost i res then
+    ({ s with inflight := if fMore f then s.inflight else s.inflight.erase i,
+              pbufLeft := s.pbufLeft - b2n (takesBuf s i res) }).postCqe ⟨.op i, res, f⟩
   else s
 
 /-- One `io_uring_enter` call (`Shared::enter`, mod.rs:154-211): the kernel
 consumes everything published, posts the scripted completions, flushes the
 overflow list if `GETEVENTS` is set; then a10 wakes the blocked futures. -/
-def St.enter (s : St) (min : Nat) (ge : Bool) (posts : List (Nat × Int)) : St :=
+def St.enter (s : St) (min : Nat) (ge : Bool) (posts : List Post) : St :=
   let n := s.sq.length
   let s := s.consumeAll
-  let s := posts.foldl (fun (s : St) p => s.kpostQuiet p.1 p.2) s
+  let s := posts.foldl (fun (s : St) p => s.kpostQuiet p.1 p.2.1 p.2.2) s
   let s := if ge then s.flushOverflow else s
   (s.emit s!"enter n={n} min={min} ge={b2n ge}").wakeBlocked
 
@@ -284,7 +369,7 @@ def St.process (s : St) (c : Cqe) : St :=
     match s.ops[i]? with
     | none => { s with panicked := true }
     | some t =>
-      match t.op.update ⟨c.res, 0⟩ with
+      match t.op.update ⟨c.res, c.flags⟩ with
       | none => { s with panicked := true }
       | some r =>
         (applyEffs { s with ops := s.ops.set i { t with op := r.1 } } i r.2).settlePool
@@ -338,12 +423,13 @@ def canNew (s : St) (i : Nat) (k : Kind) (fd : Nat) : Bool :=
     (match k with
      | .unlink => s.ringLive || s.clones.contains true
      | .pread => fdLive s fd && s.poolHandle
+     | .mread => fdLive s fd && s.poolHandle
      | _ => fdLive s fd)
 
 /-- Create operation `i` (allocates its state box). -/
 def St.newOp (s : St) (i : Nat) (k : Kind) (fd : Nat) : St :=
   if canNew s i k fd then
-    ({ s with ops := s.ops ++ [({ op := { multi := false }, kind := k, fd := fd } : TOp)] } : St).emit "ok"
+    ({ s with ops := s.ops ++ [({ op := { multi := k.multi }, kind := k, fd := fd } : TOp)] } : St).emit "ok"
   else s.emit "bad-op"
 
 /-- State after `Future::poll` of operation `i` (= `t`) with waker `w`. -/
@@ -356,12 +442,14 @@ def St.pollCore (s : St) (i w : Nat) (t : TOp) : St :=
     blocked := match blockedOf r.2.2 with
       | some w => s.blocked ++ [w]
       | none => s.blocked,
-    bufs := if t.kind == .pread && isReadyOk r.2.1 then s.bufs ++ [true] else s.bufs,
+    bufs := if t.kind.pool && isReadyOk r.2.1 then s.bufs ++ [true] else s.bufs,
     out := s.out ++ [showPoll r.2.1] ++ (if sub then [s!"sqe op{i} {t.kind.opc}"] else [])
-      ++ (if t.kind == .pread && isReadyOk r.2.1 then [s!"buf {s.bufs.length}"] else []) }
+      ++ (if t.kind.pool && isReadyOk r.2.1 then [s!"buf {s.bufs.length}"] else []) }
 
-/-- `Future::poll` of operation `i` with waker `w`. A `pread` that returns
-`Ok` hands its `ReadBuf` (resources) to the caller. -/
+/-- `Future::poll` / `poll_next` of operation `i` with waker `w`. A `pread`
+that returns `Ok` hands its `ReadBuf` (resources) to the caller; every `Ok`
+item of an `mread` stream is a new `ReadBuf` (a reference to the pool), the
+stream keeps its own reference until it ends or is dropped. -/
 def St.poll (s : St) (i w : Nat) : St :=
   match s.ops[i]? with
   | none => s.emit "bad-op"
@@ -382,26 +470,31 @@ def St.dropOp (s : St) (i : Nat) : St :=
   | none => s.emit "bad-op"
   | some t => if t.op.futLive && holderLive s t then s.dropOpCore i t else s.emit "bad-op"
 
-/-- A result the simulated kernel may post for operation `i` (the harness
+/-- A completion the simulated kernel may post for operation `i` (the harness
 refuses anything else): `remove_file` completes with 0 or an error, reads and
-writes with at most the 64 bytes of their buffers. -/
-def postOk (s : St) (p : Nat × Int) : Bool :=
+writes with at most the 64 bytes of their buffers; `F_MORE` (2) only for the
+multishot read and the zero-copy send, `F_NOTIF` (8) only for the latter. -/
+def postOk (s : St) (p : Post) : Bool :=
   match s.ops[p.1]? with
   | none => false
-  | some t => !(t.kind == .unlink && p.2 > 0) && p.2 ≥ -4095 && p.2 ≤ 64
+  | some t => !(t.kind == .unlink && p.2.1 > 0) && p.2.1 ≥ -4095 && p.2.1 ≤ 64 &&
+      (p.2.2 == 0 || (p.2.2 == 2 && (t.kind == .mread || t.kind == .sendzc)) ||
+        (p.2.2 == 8 && t.kind == .sendzc))
 
-/-- The kernel posts `res` for `i`'s in-flight submission. -/
-def St.kpost (s : St) (i : Nat) (res : Int) : St :=
-  if s.ringFdOpen && postOk s (i, res) then
+/-- The kernel posts `(res, flags)` for `i`'s in-flight submission. -/
+def St.kpost (s : St) (i : Nat) (res : Int) (f : Nat) : St :=
+  if s.ringFdOpen && postOk s (i, res, f) then
     if s.inflight.contains i then
-      (s.kpostQuiet i res).emit
-        (if s.overflow.isEmpty && s.cq.length < s.cqLen then "posted" else "overflow")
+      -- (`kpostQuiet` does nothing when no pool buffer is left)
+      (s.kpostQuiet i res f).emit
+        (if !s.canPost i res then "nobuf"
+         else if s.overflow.isEmpty && s.cq.length < s.cqLen then "posted" else "overflow")
     else s.emit "miss"
   else s.emit "bad-op"
 
 /-- `Ring::poll(Some(0))`; `posts` are completions the kernel posts during the
 `io_uring_enter` call (ignored when no call is made). -/
-def St.rpoll (s : St) (posts : List (Nat × Int)) : St :=
+def St.rpoll (s : St) (posts : List Post) : St :=
   if s.ringLive then
     let s1 := s.useCq
     let s2 := if s1.cq.isEmpty then s1.useSq.enter 1 true (posts.filter (postOk s)) else s1
@@ -424,7 +517,7 @@ def St.dropLoop (s : St) : Nat → St
 /-- SYNC_CANCEL(ANY|ALL): every in-flight submission ends with -ECANCELED (KC5). -/
 def St.cancelAll (s : St) : List Nat → St
   | [] => s
-  | i :: is => (s.postCqe ⟨.op i, -ECANCELED⟩).cancelAll is
+  | i :: is => (s.postCqe ⟨.op i, -ECANCELED, 0⟩).cancelAll is
 
 /-- `Completions::drop`: flush the submissions, cancel everything in flight
 synchronously, then fetch and process completions until none are left. -/
@@ -451,13 +544,30 @@ def St.dropClone (s : St) (k : Nat) : St :=
 def fdBorrowed (s : St) (k : Nat) : Bool :=
   s.ops.any (fun t => t.kind != .unlink && t.fd == k && t.op.futLive)
 
-/-- `AsyncFd` drop (fd.rs:213-233): queue a CLOSE, or close synchronously when
-the queue is full; then its `sq` field goes. -/
+def fdDir (s : St) (k : Nat) : Bool := s.fdDir.getD k false
+
+/-- `AsyncFd` drop (fd.rs:213-233), regular descriptor: queue a CLOSE, or close
+synchronously when the queue is full; then its `sq` field goes. -/
 def St.dropFd (s : St) (k : Nat) : St :=
-  if s.fdLive[k]? == some true && !fdBorrowed s k then
+  if s.fdLive[k]? == some true && !fdBorrowed s k && !fdDir s k then
     let s1 : St := { s.useSq with fdLive := s.fdLive.set k false }
     if s1.sqRoom then ({ s1 with sq := s1.sq ++ [SqEntry.close k] } : St).emit s!"sqe close fd{k}"
     else (s1.closeFd k).emit s!"close fd{k} {if s.fdCloses.getD k 0 == 0 then "ok" else "EBADF"}"
+  else s.emit "bad-op"
+
+/-- `AsyncFd` drop (fd.rs:213-233), direct descriptor `k` (= its index in the
+registered-file table): queue a CLOSE with `file_index = k + 1`
+(`close_file_fd`, io.rs:646-657), or, when the queue is full, release the slot
+synchronously (`close_direct_fd`, io.rs:659-671: `io_uring_register(ring fd,
+FILES_UPDATE, {offset: k, fds: [-1]}, 1)` — a system call on the ring
+descriptor, hence the second `useSq`); then its `sq` field goes. -/
+def St.dropDfd (s : St) (k : Nat) : St :=
+  if s.fdLive[k]? == some true && !fdBorrowed s k && fdDir s k then
+    let s1 : St := { s.useSq with fdLive := s.fdLive.set k false }
+    if s1.sqRoom then
+      ({ s1 with sq := s1.sq ++ [SqEntry.closeIdx (k + 1)] } : St).emit s!"sqe close slot{k}"
+    else (s1.useSq.releaseSlot k).emit
+      s!"register files-update slot{k} {if k < s.slotReg.length then "ok" else "EINVAL"}"
   else s.emit "bad-op"
 
 def St.dropPool (s : St) : St :=
@@ -472,11 +582,12 @@ def St.dropBuf (s : St) (j : Nat) : St :=
 inductive Step where
   | newOp (i : Nat) (k : Kind) (fd : Nat)
   | poll (i w : Nat)
-  | kpost (i : Nat) (res : Int)
-  | rpoll (posts : List (Nat × Int))
+  | kpost (i : Nat) (res : Int) (f : Nat := 0)
+  | rpoll (posts : List Post)
   | dropRing
   | dropClone (k : Nat)
   | dropFd (k : Nat)
+  | dropDfd (k : Nat)
   | dropOp (i : Nat)
   | dropPool
   | dropBuf (j : Nat)
@@ -485,11 +596,12 @@ inductive Step where
 def core (s : St) : Step → St
   | .newOp i k fd => s.newOp i k fd
   | .poll i w => s.poll i w
-  | .kpost i res => s.kpost i res
+  | .kpost i res f => s.kpost i res f
   | .rpoll posts => s.rpoll posts
   | .dropRing => s.dropRing
   | .dropClone k => s.dropClone k
   | .dropFd k => s.dropFd k
+  | .dropDfd k => s.dropDfd k
   | .dropOp i => s.dropOp i
   | .dropPool => s.dropPool
   | .dropBuf j => s.dropBuf j
@@ -511,13 +623,27 @@ structure Cfg where
   fds : Nat := 1
   pool : Bool := false
   maxOps : Nat := 8
+  /-- per descriptor `k < fds`: it is a direct descriptor, registered in slot `k`
+  of the ring's file table (descriptors beyond the list are regular) -/
+  direct : List Bool := []
+  /-- size of the registered-file table (`with_direct_descriptors(dtab)`) -/
+  dtab : Nat := 0
   deriving Repr
+
+/-- Every direct descriptor is one of the `fds` descriptors and its slot lies
+inside the table. -/
+def Cfg.directOk (c : Cfg) : Prop := c.direct.length ≤ c.fds ∧ c.direct.length ≤ c.dtab
+
+instance (c : Cfg) : Decidable c.directOk := by unfold Cfg.directOk; infer_instance
 
 def init (c : Cfg) : St :=
   { sqLen := c.sq, cqLen := c.cq, cqHead := c.cqh, maxOps := c.maxOps,
     clones := List.replicate c.clones true,
     fdLive := List.replicate c.fds true,
+    fdDir := c.direct,
     fdCloses := List.replicate c.fds 0,
+    slotReg := c.direct ++ List.replicate (c.dtab - c.direct.length) false,
+    slotRel := List.replicate c.dtab 0,
     poolHandle := c.pool, poolLive := c.pool, hadPool := c.pool }
 
 /-! ### Line protocol -/
@@ -533,17 +659,29 @@ def parseKind (k : String) : Option Kind :=
   else if k == "write" then some .write
   else if k == "pread" then some .pread
   else if k == "unlink" then some .unlink
+  else if k == "mread" then some .mread
+  else if k == "sendzc" then some .sendzc
   else none
 
-/-- Parse `i:res` pairs separated by commas (`-` = none). -/
-def parsePosts (s : String) : Option (List (Nat × Int)) :=
+/-- CQE flags of a scripted completion: absent / `0` = final, `m` =
+`IORING_CQE_F_MORE`, `n` = `IORING_CQE_F_NOTIF` (final). -/
+def parseFlags (f : String) : Option Nat :=
+  if f == "0" then some 0 else if f == "m" then some 2 else if f == "n" then some 8 else none
+
+/-- Parse `i:res` / `i:res:flags` items separated by commas (`-` = none). -/
+def parsePosts (s : String) : Option (List Post) :=
   if s == "-" then some []
   else (s.splitOn ",").mapM (fun t =>
     match t.splitOn ":" with
     | [i, r] => do
       let i ← parseNat i
       let r ← parseInt r
-      pure (i, r)
+      pure (i, r, 0)
+    | [i, r, f] => do
+      let i ← parseNat i
+      let r ← parseInt r
+      let f ← parseFlags f
+      pure (i, r, f)
     | _ => none)
 
 def parseStep : List String → Option Step
@@ -554,11 +692,13 @@ def parseStep : List String → Option Step
              else (if k == .unlink then none else parseNat fd)
     pure (.newOp i k fd)
   | ["poll", i, w] => do pure (.poll (← parseNat i) (← parseNat w))
-  | ["kpost", i, r] => do pure (.kpost (← parseNat i) (← parseInt r))
+  | ["kpost", i, r] => do pure (.kpost (← parseNat i) (← parseInt r) 0)
+  | ["kpost", i, r, f] => do pure (.kpost (← parseNat i) (← parseInt r) (← parseFlags f))
   | ["rpoll", posts] => do pure (.rpoll (← parsePosts posts))
   | ["drop", "ring"] => some .dropRing
   | ["drop", "clone", k] => do pure (.dropClone (← parseNat k))
   | ["drop", "fd", k] => do pure (.dropFd (← parseNat k))
+  | ["drop", "dfd", k] => do pure (.dropDfd (← parseNat k))
   | ["drop", "op", i] => do pure (.dropOp (← parseNat i))
   | ["drop", "pool"] => some .dropPool
   | ["drop", "buf", j] => do pure (.dropBuf (← parseNat j))
@@ -584,19 +724,34 @@ structure Driver where
 def parseBool (s : String) : Option Bool :=
   if s == "1" then some true else if s == "0" then some false else none
 
+/-- Bits `0 .. n-1` of `m`, least significant first, without trailing `false`s
+beyond the highest set bit (`dmask=` of the header: bit `k` = descriptor `k`
+is direct). -/
+def maskBits (m : Nat) : Nat → List Bool
+  | 0 => []
+  | n + 1 => if m == 0 then [] else (m % 2 == 1) :: maskBits (m / 2) n
+
 def stepLine (d : Driver) (toks : List String) : Driver × List String :=
   match toks with
   | "teardown" :: "begin" :: _ :: rest =>
+    -- `dmask` / `dtab` are optional (absent = no direct descriptors, no table)
+    let dmask := match findKv "dmask" rest with
+      | none => some 0
+      | some v => parseNat v
+    let dtab := match findKv "dtab" rest with
+      | none => some 0
+      | some v => parseNat v
     match findNat "sq" rest, findNat "cq" rest, findNat "cqh" rest, findNat "clones" rest,
-          findNat "fds" rest, (findKv "pool" rest).bind parseBool, findNat "maxops" rest with
-    | some sq, some cq, some cqh, some cl, some fds, some pool, some mo =>
+          findNat "fds" rest, (findKv "pool" rest).bind parseBool, findNat "maxops" rest, dmask, dtab with
+    | some sq, some cq, some cqh, some cl, some fds, some pool, some mo, some dmask, some dtab =>
       if isPow2 sq ∧ sq ≤ 64 ∧ isPow2 cq ∧ cq ≤ 128 ∧ cq ≥ sq ∧ cqh < 4294967296 ∧ cl ≤ 4 ∧ fds ≤ 4
-          ∧ mo ≤ 16 then
+          ∧ mo ≤ 16 ∧ dtab ≤ 16 ∧ dmask < 2 ^ fds ∧ (maskBits dmask 4).length ≤ dtab then
         ({ st := init { sq := sq, cq := cq, cqh := cqh, clones := cl, fds := fds, pool := pool,
-                        maxOps := mo }, live := true },
-         ["mmap sq", "mmap sqes", "mmap cq"] ++ (if pool then ["register pbuf ok"] else []))
+                        maxOps := mo, direct := maskBits dmask 4, dtab := dtab }, live := true },
+         ["mmap sq", "mmap sqes", "mmap cq"] ++ (if dtab > 0 then ["register files ok"] else [])
+           ++ (if pool then ["register pbuf ok"] else []))
       else ({ live := false }, ["bad-op"])
-    | _, _, _, _, _, _, _ => ({ live := false }, ["bad-op"])
+    | _, _, _, _, _, _, _, _, _ => ({ live := false }, ["bad-op"])
   | "teardown" :: rest =>
     if !d.live then (d, ["bad-op"]) else
     match parseStep rest with
